@@ -151,11 +151,13 @@ CHECKS['C11'] = dict(
 )
 CHECKS['C17'] = dict(
     category='exploration',
-    text=('Deductive part: _binarize is proved against the numpy contracts (mask = complement of the listed indices). The postcondition of apply_category_filters over whole documents is decided '
-          'BOUNDED as a run-time contract on the real function (every cell of every matrix compared, dependency scores and token order unchanged), and the data clause is checked exhaustively over '
-          'the shipped cat_dict / targets / seen_rules / unary_rules files.'),
-    design_ref='DESIGN.md section 4, C17', note=BOUNDED_NOTE + '; numpy contracts assumed',
-    technique='contract-based deductive verification of _binarize (PyVC); bounded run-time contract + exhaustive data check',
+    text=('Deductive part (PyVC on the real parsing.py): _binarize is proved against the numpy contracts (mask = complement of the listed indices); apply_category_filters (list-of-sentences form) is executed over symbolic '
+          'collections - comprehensions once for an arbitrary element, loops once for an arbitrary sentence and token with a frame obligation - and every cell is proved to be the large negative value iff the word is a key '
+          'and the category of the column is not listed, the old score otherwise; the arguments are returned as given (token order; dependency scores never stored to). Preconditions: pairwise different categories, every dictionary '
+          'category in the inventory. The data clause is checked exhaustively over the shipped cat_dict / targets / seen_rules / unary_rules files, and the real function incl. the single-sentence form is run BOUNDED as a '
+          'run-time contract (every cell compared). Level exploration: the single-sentence form and the shape checks are bounded only.'),
+    design_ref='DESIGN.md section 4, C17', note=BOUNDED_NOTE + '; numpy and dict-comprehension contracts assumed',
+    technique='contract-based deductive verification of _binarize and apply_category_filters (PyVC, arbitrary-element rules for comprehensions and loops); bounded run-time contract + exhaustive data check',
 )
 CHECKS['C18'] = dict(
     category='proof',
